@@ -25,6 +25,9 @@ from .domains import Mono, SymExp
 from .flow import enum_paths
 
 
+# parameters that NumPy accepts as an (N, D) array or as a sequence of D arrays with the same meaning (np.histogramdd)
+ARRAY_OR_SEQUENCE_PARAMS = {"sample"}
+
 class V:
     pass
 
@@ -428,6 +431,10 @@ class UnitInterp:
                         items.append(sv)
                 else:
                     items.append(self.ev(fn, el, st, depth))
+            if len(items) == 1 and isinstance(e, ast.List) and isinstance(items[0], Par) and items[0].expr in ARRAY_OR_SEQUENCE_PARAMS:
+                # [p] for a parameter NumPy accepts as array or as sequence of arrays: the same sample presented as a
+                # one-element sequence; its elements carry p's unit, which is what U(p[i]) denotes for an array p
+                return items[0]
             return Tup(items)
         if isinstance(e, ast.BinOp):
             a = self.ev(fn, e.left, st, depth)
